@@ -8,7 +8,7 @@
 use vstd::prelude::*;
 //@prelude fmt_macro
 verus! {
-//@prelude std_specs r32 attrmap
+//@prelude std_specs r32 attrmap pending
 
 pub enum SvgdxError { InvalidData(String), MissingBoundingBox(String), ParseError(String), Other }
 pub type Result<T> = core::result::Result<T, SvgdxError>;
@@ -100,12 +100,6 @@ impl SvgElement {
 
 // ------------------------------------------------------------------------------ inscribed_bbox / handle_containment
 pub uninterp spec fn elem_bbox(e: SvgElement) -> Option<BoundingBox>;
-/// a shorthand / relative / containment attribute still awaits resolution (the list of SvgElement::has_pending_geometry, proved in U-bbox)
-pub open spec fn pending(m: M) -> bool {
-    m.dom().contains("xy"@) || m.dom().contains("cxy"@) || m.dom().contains("xy1"@) || m.dom().contains("xy2"@) || m.dom().contains("xy-loc"@)
-    || m.dom().contains("dxy"@) || m.dom().contains("wh"@) || m.dom().contains("dwh"@) || m.dom().contains("dw"@) || m.dom().contains("dh"@)
-    || m.dom().contains("surround"@) || m.dom().contains("inside"@)
-}
 pub uninterp spec fn union_spec(s: Seq<BoundingBox>) -> Option<BoundingBox>;
 pub uninterp spec fn inter_spec(s: Seq<BoundingBox>) -> Option<BoundingBox>;
 pub uninterp spec fn boxes_of(ctx: Ctx, refs: Seq<char>, surround: bool, shape: Seq<char>) -> Option<Seq<BoundingBox>>;
@@ -130,6 +124,13 @@ pub fn collect_boxes(ctx: &Ctx, ref_list: &String, is_surround: bool, shape: &St
     ensures (match boxes_of(*ctx, ref_list@, is_surround, shape@) { Some(s) => r is Ok && r->Ok_0@ == s, None => r is Err })
 { unimplemented!() }
 
+/// one of the first n names is an attribute of the element
+pub open spec fn has_any(m: Map<Seq<char>, Seq<char>>, ks: Seq<&str>, n: int) -> bool decreases n {
+    if n <= 0 { false } else { has_any(m, ks, n - 1) || m.dom().contains(ks[n - 1]@) }
+}
+/// R-any: `names.iter().any(|a| self.has_attr(a))`
+#[verifier::external_body]
+pub fn any_attr(e: &SvgElement, names: &[&str]) -> (r: bool) ensures r == has_any(e.attrs@, names@, names@.len() as int) { unimplemented!() }
 impl SvgElement {
     #[verifier::external_body]
     pub fn bbox(&self) -> (r: Result<Option<BoundingBox>>) ensures r is Ok ==> r->Ok_0 == elem_bbox(*self) { unimplemented!() }
@@ -166,9 +167,17 @@ impl SvgElement {
 //@ ensures
 //@ - r == self.attrs@.dom().contains(key@)
 //@end
+//@item src/element.rs :: impl SvgElement :: fn has_foreign_position
+//@ strlit "rect" "use" "image" "svg" "foreignObject" "circle" "ellipse" "line" "cx" "cy" "x1" "y1" "x2" "y2" "x" "y"
+//@ replace[R-any] <<<foreign.iter().any(|a| self.has_attr(a))>>> => <<<any_attr(self, foreign)>>>
+//@ body-start
+//@ | proof { reveal_with_fuel(has_any, 8); }
+//@ ensures
+//@ - r == foreign_pos(self.name@, self.attrs@)     @@C10.pending.foreign_spec
+//@end
 //@item src/element.rs :: impl SvgElement :: fn has_pending_geometry
 //@ ensures
-//@ - r == pending(self.attrs@)     @@C10.pending.spec
+//@ - r == unresolved(self.name@, self.attrs@)     @@C10.pending.spec
 //@end
 //@item src/element.rs :: impl SvgElement :: fn inscribed_bbox
 //@ replace-all[R-const] <<<FRAC_1_SQRT_2>>> => <<<frac_1_sqrt_2()>>>
@@ -188,8 +197,8 @@ impl SvgElement {
 //@       let rx = strp_spec(self.attrs@["rx"@])->Some_0; let ry = strp_spec(self.attrs@["ry"@])->Some_0;
 //@       let (x1, y1, x2, y2) = bx(r->Ok_0->Some_0);
 //@       x1 == cx - rx * isqrt2v() && y1 == cy - ry * isqrt2v() && x2 == cx + rx * isqrt2v() && y2 == cy + ry * isqrt2v() })     @@C12.inside.rect_in_ellipse
-//@ - pending(self.attrs@) && r is Ok ==> r->Ok_0 is None     @@C10.pending.inscribed
-//@ - !pending(self.attrs@) && !(target_shape@ == "rect"@ && (self.name@ == "circle"@ || self.name@ == "ellipse"@)) && r is Ok ==> r->Ok_0 == elem_bbox(*self)     @@C12.inside.same_shape
+//@ - unresolved(self.name@, self.attrs@) && r is Ok ==> r->Ok_0 is None     @@C10.pending.inscribed
+//@ - !unresolved(self.name@, self.attrs@) && !(target_shape@ == "rect"@ && (self.name@ == "circle"@ || self.name@ == "ellipse"@)) && r is Ok ==> r->Ok_0 == elem_bbox(*self)     @@C12.inside.same_shape
 //@end
 
 //@item src/element.rs :: impl SvgElement :: fn handle_containment
